@@ -27,7 +27,9 @@ Shapes == {"list", "strkeys", "nested", "mixed", "emptynested", "jsonnested"}
 ValueRoutes == {"assign", "param", "return", "getter", "propstore", "propload", "elemstore", "elemload", "clone",
                 "variadic", "spread", "arraypush", "ctorparam", "methodparam",
                 \* a closure that captures the array by value: function () use ($a) { ... }
-                "closureuse"}
+                "closureuse",
+                \* a static property is a property too: store into / load from Cls::$p
+                "staticstore", "staticload", "selfstore"}
 SharingRoutes == {"ref", "refparam", "handle"}
 Routes == ValueRoutes \cup SharingRoutes
 Muts == {"store0", "storenew", "storestr", "append", "nested", "nestedappend", "nestedkey", "nestedkeyappend", "unset", "sort", "push", "pop", "shift", "unshift", "incr"}
